@@ -228,6 +228,9 @@ def _typed_worker(a):
             rng = random.Random("typed/%d/%d" % (seed, i))
             n = rng.randint(2, 6)
             settings = []
+            # every third case edits the file IN PLACE (same path and inode) to new values of the same length, the way a file is
+            # edited and re-read: the new values must be delivered all the same
+            inplace = (i % 3 == 0)
             for j in range(n):
                 st, text, val = gen_typed(rng)
                 st_d, dtext, dval = st, None, None
@@ -235,12 +238,14 @@ def _typed_worker(a):
                     st_d, dtext, dval = gen_typed(rng)
                     if st_d == st:
                         break
-                bad = rng.choice(BAD[st]) if rng.random() < 0.6 else None
+                bad = rng.choice(BAD[st]) if (rng.random() < 0.6 and not inplace) else None
                 if bad is None:
                     st2, text2, val2 = st, None, None
+                    tries = 0
                     while True:
                         st2, text2, val2 = gen_typed(rng)
-                        if st2 == st:
+                        tries += 1
+                        if st2 == st and (not inplace or tries > 400 or (len(text2) == len(text) and text2 != text)):
                             break
                 else:
                     text2, val2 = bad, None
@@ -250,8 +255,9 @@ def _typed_worker(a):
             p1, p2 = b.add_file(f1), b.add_file(f2)
             reg = ["REG str ty/%s %d %s" % (s["name"], s["st"], confgen.pct(s["dtext"])) for s in settings]
             order = rng.choice(["reg-first", "reg-after-load"])
+            second = ["COPY " + confgen.pct(p2) + " " + confgen.pct(p1), "LOAD " + confgen.pct(p1)] if inplace else ["LOAD " + confgen.pct(p2)]
             cmds = (reg if order == "reg-first" else []) + ["LOAD " + confgen.pct(p1)] + (reg if order != "reg-first" else []) + \
-                   ["DUMP", "LOAD " + confgen.pct(p2), "DUMP"]
+                   ["DUMP"] + second + ["DUMP"]
             tag = "ty%d" % i
             b.case(tag, cmds)
             meta[tag] = (settings, order, f1, f2)
